@@ -312,7 +312,7 @@ fn gen_case(seed: u64, i: u64) -> Case {
         Sp::new("<!-- <", "> -->", "time-limited", "removal-marker")
     } else {
         // spellings that survive an argv round trip unchanged (no leading '-')
-        let pool = [("/* <", "> */"), ("<", ">"), ("[[", "]]"), ("«", "»"), ("⟦🎈", "🎈⟧"), ("{% ", " %}"), ("#<", ">#"), ("|", "|")];
+        let pool = [("/* <", "> */"), ("<", ">"), ("[[", "]]"), ("«", "»"), ("⟦🎈", "🎈⟧"), ("{% ", " %}"), ("#<", ">#"), ("|", "|"), ("\\(", "\\)"), ("<\\n", "\\t>"), ("$(", ")"), ("%s<", ">%d")];
         let (ds, de) = *r.pick(&pool);
         let (tl, mk) = *r.pick(&TAG_NAMES);
         Sp::new(ds, de, tl, mk)
@@ -324,14 +324,19 @@ fn gen_case(seed: u64, i: u64) -> Case {
     let d = gen_block_doc(&mut r, &gc);
     let rd = render(&d, &sp);
     let step = 1 + r.below(4) as u8;
-    let mut cfg = step_cfg(step);
+    // (clock variants: fractional seconds, other zone, other configured offset)
+    let mut cfg = step_cfg_var(step, r.next());
+    // an argument that contains a comma, a blank or an equals sign is one target name
+    if r.chance(1, 6) {
+        cfg.targets.push(r.pick(&["feat-b,feat", "feat-b feat", "x=feat", ",feat", "feat,"]).to_string());
+    }
     // express the same instant in another zone / use a non-zero offset sometimes
-    if r.chance(1, 3) {
+    if !cfg.now.contains('.') && r.chance(1, 3) {
         let e = crate::refmodel::parse_rfc3339(&cfg.now).unwrap();
         cfg.now = crate::refmodel::fmt_rfc3339(e, *r.pick(&[32400, -28800, 19800]));
     }
-    if r.chance(1, 4) {
-        cfg.offset = r.pick(&["+09:00", "-0800", "+0530"]).to_string();
+    if cfg.offset == "+00:00" && r.chance(1, 4) {
+        cfg.offset = r.pick(&["+09:00", "-0800", "+0530", "-03:30"]).to_string();
     }
     if r.chance(1, 5) {
         cfg.targets.clear();
@@ -348,6 +353,19 @@ fn gen_case(seed: u64, i: u64) -> Case {
     let rd = if r.chance(1, 15) {
         // a byte-order mark at the start of the file must pass through like any other text
         crate::doc::Rendered { text: format!("\u{feff}{}", rd.text), elems: vec![] }
+    } else {
+        rd
+    };
+    let rd = if r.chance(1, 15) {
+        // a NUL / other control character in the text is text
+        let c: &str = *r.pick(&["\u{0}", "\u{1b}", "\u{7f}", "\u{0}\u{0}"]);
+        let at = if r.chance(1, 2) { 0 } else { rd.text.char_indices().map(|x| x.0).nth(r.below(rd.text.chars().count().max(1))).unwrap_or(0) };
+        // (not inside a tag: only at a position outside every element span)
+        if rd.elems.iter().all(|e| !(e.open.0 < at && at < e.open.1) && !(e.close.0 < at && at < e.close.1)) {
+            crate::doc::Rendered { text: format!("{}{}{}", &rd.text[..at], c, &rd.text[at..]), elems: vec![] }
+        } else {
+            rd
+        }
     } else {
         rd
     };
